@@ -13,23 +13,23 @@ open RV
 /-- 1. The per-code switch of `Encode` / `IsAuthenticRequest` is the RFC table, for every code
     (all Go ints, not only 0..255). -/
 theorem encodeClass_rfc (c : Int) : encodeClass c = Rfc.encClass c := by
-  sorry
+  exact encodeClass_eq_rfc c
 
 theorem requestClass_rfc (c : Nat) : requestClass c = Rfc.reqClass c := by
-  sorry
+  exact requestClass_eq_rfc c
 
 /-- Unknown codes are refused (whatever the attributes). -/
 theorem encode_refuses_unknown (H : Hash) (p : Packet) (h : Rfc.encClass p.code = .refused) :
     ∀ w, encode H p ≠ .ok w := by
-  sorry
+  exact encode_refused H p h
 
 /-- Encode succeeds iff the code is known and MarshalBinary succeeds; it never panics. -/
 theorem encode_ok_iff (H : Hash) (p : Packet) :
     (∃ w, encode H p = .ok w) ↔ (Rfc.encClass p.code ≠ .refused ∧ ∃ b, marshal p = .ok b) := by
-  sorry
+  exact encode_ok_iff_cond H p
 
 theorem encode_never_faults (H : Hash) (p : Packet) : encode H p ≠ .fault := by
-  sorry
+  exact encode_ne_fault H p
 
 /-- 2. The authenticator field of an encoded packet is the RFC formula over the emitted datagram:
     the packet's own authenticator for Access-Request / Status-Server, the hash over sixteen zero
@@ -44,7 +44,7 @@ theorem encode_auth (H : Hash) (hH : ∀ x, (H x).length = 16) (p : Packet) (w :
        | .hashReqAuth => Rfc.replyAuth H w p.auth p.secret
        | .refused => []) ∧
     ∃ b, marshal p = .ok b ∧ w.take 4 = b.take 4 ∧ w.drop 20 = b.drop 20 ∧ w.length = b.length := by
-  sorry
+  exact encode_auth_field H hH p w ha h
 
 /-- 3. The response predicate is true iff both datagrams have at least 20 bytes, the secret is
     non-empty and the response authenticator equals the formula over the given request. -/
@@ -52,7 +52,7 @@ theorem isAuthenticResponse_iff (H : Hash) (r q s : Bytes) :
     isAuthenticResponse H r q s = true ↔
       20 ≤ r.length ∧ 20 ≤ q.length ∧ s ≠ [] ∧
       (r.drop 4).take 16 = Rfc.replyAuth H r ((q.drop 4).take 16) s := by
-  sorry
+  exact isAuthenticResponse_iff_rfc H r q s
 
 /-- The request predicate: Access-Request / Status-Server always, Accounting, Disconnect and CoA requests
     iff the zero-authenticator formula holds, any other code never. -/
@@ -63,7 +63,7 @@ theorem isAuthenticRequest_iff (H : Hash) (q s : Bytes) :
        | .always => True
        | .hashZero => (q.drop 4).take 16 = Rfc.replyAuth H q (zeros 16) s
        | .never => False) := by
-  sorry
+  exact isAuthenticRequest_iff_rfc H q s
 
 /-- 4. Encode and the predicates are mutually consistent: a reply built from a request
     (`Response`, any attributes) and encoded verifies against that request's datagram … -/
@@ -74,7 +74,7 @@ theorem response_verifies (H : Hash) (hH : ∀ x, (H x).length = 16)
     (hc : Rfc.encClass code = .hashReqAuth)
     (h : encode H { response req code with attrs := attrs } = .ok w) :
     isAuthenticResponse H w reqWire req.secret = true := by
-  sorry
+  exact response_verifies_aux H hH req reqWire code attrs w hq hqa ha hs hc h
 
 /-- … and an encoded Accounting, Disconnect and CoA requests, Access-Request or Status-Server verifies
     as a request. -/
@@ -84,7 +84,7 @@ theorem request_verifies (H : Hash) (hH : ∀ x, (H x).length = 16) (p : Packet)
     (hcode : 0 ≤ p.code ∧ p.code ≤ 255)
     (h : encode H p = .ok w) :
     isAuthenticRequest H w p.secret = true := by
-  sorry
+  exact request_verifies_aux H hH p w ha hs hc hcode h
 
 /-- 5. Tampering: the bytes covered by the response authenticator determine the hash input
     injectively — two (response, request authenticator, secret) triples with 16-byte request
@@ -96,17 +96,17 @@ theorem covered_injective (r r' a a' s s' : Bytes)
     (hs : s.length = s'.length)
     (h : authInput r a s = authInput r' a' s') :
     r.take 4 = r'.take 4 ∧ a = a' ∧ r.drop 20 = r'.drop 20 ∧ s = s' := by
-  sorry
+  exact authInput_injective r r' a a' s s' hr hr' ha ha' hs h
 
 /-- 6. `New` takes the identifier and the authenticator from the 17 random bytes. -/
 theorem new_uses_entropy (rnd : Bytes) (c : Int) (s : Bytes) (h : rnd.length = 17) :
     (newPacket rnd c s).id = rnd.getD 0 0 ∧ (newPacket rnd c s).auth = rnd.drop 1 ∧
     (newPacket rnd c s).auth.length = 16 ∧ (newPacket rnd c s).code = c ∧
     (newPacket rnd c s).secret = s ∧ (newPacket rnd c s).attrs = [] := by
-  sorry
+  exact newPacket_fields rnd c s h
 
 /-! Non-vacuity (tests): a concrete reply meets the hypotheses of `response_verifies`. -/
 example : Rfc.encClass 2 = .hashReqAuth ∧ Rfc.encClass 4 = .hashZero ∧ Rfc.encClass 13 = .refused := by
-  sorry
+  exact ⟨rfl, rfl, rfl⟩
 
 end RV.C03
